@@ -28,7 +28,10 @@ def shard_config(shard, tier):
     """four of eight shards run under other documented settings: default densities inf (solids/enzymes without
     volume) and 2.5/0.4, and other display precisions"""
     return {5: {'default_solid_density': float('inf'), 'default_enzyme_density': float('inf')},
-            6: {'default_solid_density': 2.5, 'default_enzyme_density': 0.4},
+            # display units that differ from the storage units (a volume kept in uL is reported in mL, moles in nmol)
+            6: {'default_solid_density': 2.5, 'default_enzyme_density': 0.4, 'moles_display_unit': 'nmol',
+                'volume_display_unit': 'mL'},
+            1: {'moles_display_unit': 'mmol', 'volume_display_unit': 'nL'},
             2: {'default_solid_density': float('inf')},
             # other display precisions, 0 digits for a moles unit and a mass unit among them
             4: {'precisions': {'default': 2, 'umol': 0, 'uL': 2, 'mg': 0, 'nmol': 4}}}.get(shard % 8)
